@@ -562,6 +562,8 @@ def fraction_lax_coercion_loader(data):
         if str_e.startswith("Invalid literal"):
             raise ValueLoadError("Bad string format", data)
         raise ValueLoadError(str(e), data)
+    except OverflowError as e:
+        raise ValueLoadError(str(e), data)
 
 
 FRACTION_PROVIDER = ScalarProvider(
